@@ -236,7 +236,7 @@ def parseRedun (tok : String) : Option (List (String × Nat × Int)) := do
     | [f, l, d] => do
       let l ← l.toNat?
       let d ← d.toInt?
-      if l < 3 && ["lio", "fvo", "fvs", "fis", "lvs", "lis", "fss", "frs"].contains f then some (f, l, d) else none
+      if l < 3 && ["lio", "fvo", "fvs", "fis", "lvs", "lis", "fss", "frs", "flc"].contains f then some (f, l, d) else none
     | _ => none
 
 def redunFH (fh : FileHeader) (r : String × Nat × Int) : FileHeader :=
@@ -248,6 +248,8 @@ def redunFH (fh : FileHeader) (r : String × Nat × Int) : FileHeader :=
   -- looks at them (the LOD number of the token is not used)
   else if f == "fss" then { fh with stackSize := addDelta d fh.stackSize }
   else if f == "frs" then { fh with runtimeSize := addDelta d fh.runtimeSize }
+  -- the file header's LOD count (the reader loops over `ModelHeader.lodCount`); `u8`, wrapping
+  else if f == "flc" then { fh with lodCount := UInt8.ofNat ((fh.lodCount.toNat + d) % 256).toNat }
   else fh
 
 def redunMD (md : ModelData) (r : String × Nat × Int) : ModelData :=
